@@ -15,6 +15,7 @@ PROP = dict(
               "single_lookup_first_match", "multiple_lookup_first_match", "alternate_lookup_first_match",
               "ligature_lookup_longest_first", "single_pos_first_match", "pair_pos_subtables",
               "pair_first_match_when_compatible", "class_pair_shadowing_example",
+              "class_reference_resolves_to_latest_definition",
               "unrepaired_numeric_range_excludes_end_refuted", "repo_numeric_range_includes_end"],
     prelude="From FV.C11 Require Import Model Tie.\nFrom Coq Require Import List NArith ZArith Bool.",
     harness_args=lambda tier, seed: ["--seed", str(seed), "--n", str(N[tier])],
@@ -27,7 +28,8 @@ PROP = dict(
          "prefixes, promotion of single into multiple/ligature lookups, class pairs forcing subtable breaks, marks between "
          "components, nested lookups changing the length; runs of one rule type separated only by a lookupflag statement whose "
          "state differs only in the filtering set / attachment class, or not at all; every mark mentioned by a flag class is in "
-         "the alphabet of the checked strings); low-rate streams of conflicting rules, invalid files and known "
+         "the alphabet of the checked strings; in one program of three a named class is used by rules and lookupflag statements "
+         "before and after it is redefined, from scratch or incrementally (`@c = [@c more];`)); low-rate streams of conflicting rules, invalid files and known "
          "crashers; plus a glyph-range stream. Each accepted file is compiled by fea_rs::Compiler, the real GSUB/GPOS/GDEF "
          "are decoded by a hand-written parser, and the property predicate (apply_ot on the real tables = interp_fea of the "
          "source) is evaluated on ALL glyph strings up to length 3-4 over the focus alphabet plus ~30 random longer ones, for "
